@@ -169,6 +169,11 @@ func (s *Service) Aggregate(ctx context.Context, duty *synccommitteeaggregator.D
 			return
 		}
 		beaconBlockRoot = beaconBlockRootResponse.Data
+		if beaconBlockRoot == nil {
+			log.Warn().Msg("Obtained empty beacon block root")
+			monitorSyncCommitteeAggregationsCompleted(started, duty.Slot, len(duty.ValidatorIndices), "failed", startOfSlot)
+			return
+		}
 	}
 	log.Trace().Dur("elapsed", time.Since(started)).Str("beacon_block_root", fmt.Sprintf("%#x", *beaconBlockRoot)).Msg("Obtained beacon block root")
 
@@ -188,6 +193,11 @@ func (s *Service) Aggregate(ctx context.Context, duty *synccommitteeaggregator.D
 				return
 			}
 			contribution := contributionResponse.Data
+			if contribution == nil {
+				log.Warn().Msg("Obtained empty sync committee contribution")
+				monitorSyncCommitteeAggregationsCompleted(started, duty.Slot, len(duty.ValidatorIndices), "failed", startOfSlot)
+				return
+			}
 			contributionAndProof := &altair.ContributionAndProof{
 				AggregatorIndex: validatorIndex,
 				Contribution:    contribution,
